@@ -394,6 +394,8 @@ type TCPWorld struct {
 	Clients []*Client
 	ServeErr error
 	served  bool
+	// KeepReads: timestamp every server-side socket read (timed oracles).
+	KeepReads bool
 }
 
 func (e *Env) NewTCPWorld(routes layer4.RouteList, timeout time.Duration) *TCPWorld {
